@@ -12,6 +12,7 @@ CONSTANTS Comp = "pairs"
   NBuf = 2
   Gaps <- G_none
   Strict = FALSE
+  Busy = FALSE
   D = 30
 INIT Init
 NEXT Next
